@@ -2,6 +2,7 @@
 from engine import *
 import provenance
 import guards
+import errprop
 import writes
 import mutations
 
@@ -468,3 +469,4 @@ RULES.append(('05.R', 'state resets: every reviewed constant write to persistent
 RULES.append(('05.M', 'collection mutations: every reviewed (function, stored collection, mutator class: add / remove / filter / empty / swap / order) triple is still present - an entry that is no longer removed, inserted or drained on one path (rules/mutations.py)', lambda F: mutations.for_property(F, 'C05', '05.M')))
 RULES.append(('05.G', 'guard census: no reviewed call of a workspace function and no reviewed mutation of a stored collection gained a controlling branch condition (an added `&& cond`, early return / continue, more specific match arm in front of an act); counts per call site, name free (rules/guards.py)', lambda F: guards.for_property(F, 'C05', '05.G')))
 RULES.append(('05.W', 'field assignments: every reviewed (function, Type.field) direct assignment is still made - state that a path no longer updates, or updates only conditionally (get_or_insert for an overwrite); generalises NN.R (rules/writes.py)', lambda F: writes.for_property(F, 'C05', '05.W')))
+RULES.append(('05.X', 'error propagation: once a branch has found a Result of the function\'s own error type to be Err, no path returns Ok(..) or an unrelated value - a failed monitor write is not reported as Completed: the revocation of the old state would be released although the new state is not durable (value-refined walk, rules/errprop.py)', lambda F: errprop.rule(F, '05.X', r'util/persist\.rs$|chain/chainmonitor\.rs$', 3, exceptions={'list_paginated_with_values': 'a key removed between listing and reading is not part of the page (NotFound only; every other error is returned)', 'list': 'a directory entry that vanished between read_dir and the check is skipped / included by design', 'list_paginated_impl': 'same tolerance as list for entries deleted during the scan'})))
